@@ -532,3 +532,65 @@ func (e *Enum) genInt(n int, sc *Scope, lpos bool, yield yieldFn) bool {
 	}
 	return true
 }
+
+// NewAttrScope creates a top-level scope whose names are NOT stack arguments but attributes of an
+// implicit map (GenerateWithMap): they are visible everywhere, and — unlike arguments — may be
+// shadowed by a top-level let.
+func NewAttrScope(attrs map[string]Sort, order []string) *Scope {
+	nf := 1
+	sc := &Scope{nextFrame: &nf}
+	for _, n := range order {
+		sc.vars = append(sc.vars, binding{n, attrs[n], -1})
+	}
+	return sc
+}
+
+// SubstFree returns a copy of n in which every free occurrence of a name in attrs (one not bound by
+// an enclosing let, func, closure parameter) is replaced by repl(name).
+func SubstFree(n *Node, attrs map[string]bool, repl func(name string) *Node) *Node {
+	return substFree(n, attrs, repl, nil)
+}
+
+func substFree(n *Node, attrs map[string]bool, repl func(string) *Node, bound []string) *Node {
+	if n == nil {
+		return nil
+	}
+	isBound := func(s string) bool {
+		for _, b := range bound {
+			if b == s {
+				return true
+			}
+		}
+		return false
+	}
+	c := *n
+	switch n.K {
+	case Var:
+		if attrs[n.S] && !isBound(n.S) {
+			return repl(n.S)
+		}
+		return &c
+	case Let:
+		c.A = substFree(n.A, attrs, repl, bound)
+		c.B = substFree(n.B, attrs, repl, append(append([]string{}, bound...), n.S))
+		return &c
+	case Func:
+		inner := append(append([]string{}, bound...), n.S)
+		c.A = substFree(n.A, attrs, repl, append(append([]string{}, inner...), n.Params...))
+		c.B = substFree(n.B, attrs, repl, inner)
+		return &c
+	case Lam:
+		c.A = substFree(n.A, attrs, repl, append(append([]string{}, bound...), n.Params...))
+		return &c
+	}
+	c.A = substFree(n.A, attrs, repl, bound)
+	c.B = substFree(n.B, attrs, repl, bound)
+	c.C = substFree(n.C, attrs, repl, bound)
+	if n.Args != nil {
+		c.Args = make([]*Node, len(n.Args))
+		for i, a := range n.Args {
+			c.Args[i] = substFree(a, attrs, repl, bound)
+		}
+	}
+	return &c
+}
